@@ -36,7 +36,10 @@ REQUIRED = ["no_loss", "admitted_by_commit", "only_admitted_delivered", "save_ev
             "vcr_outcome_trichotomy", "vcr_handleError_decision", "vcr_transient_is_retried", "vcr_fatal_iff", "vcr_never_incomplete",
             "vcr_context_not_allowed_is_done", "vdr_fatal_iff_not_db", "private_wrap_fatal_iff_not_db", "private_no_error_never_fatal",
             "private_present_is_done", "nats_never_fatal", "fatal_answer_ends_delivery_visibly", "plain_error_keeps_job",
-            "vdr_non_db_error_visible_after_one_call", "vdr_db_error_is_retried"]
+            "vdr_non_db_error_visible_after_one_call", "vdr_db_error_is_retried",
+            # deepening round 3 (NutsProofs.Props.C14Vis): a listed failed event stays listed until its completion is recorded (ALL histories), Run leaves parked jobs alone
+            "failed_stays_visible_or_completed", "restart_keeps_failed_visible", "restart_leaves_parked_job_alone", "parked_failed_job_stays_listed",
+            "restart_never_calls_parked_job", "fact_run_only_reads_calls_and_reschedules", "fact_threshold_below_fatal_mark"]
 
 
 def sel(filters, tx, ty):
@@ -197,6 +200,15 @@ def oracle(h, threshold):
             completed.setdefault((op["s"], op["ref"]), i)
         if kind == "wp" and status == "ok" and (1, op["ref"]) not in jobs and ((1, op["ref"]) in prev_jobs):
             completed.setdefault((1, op["ref"]), i)
+        # --- a job that was visible as failed (recorded failures at/over the threshold) stays visible until a completion of exactly
+        #     that (subscriber, transaction) is on record - across restarts too (failed_stays_visible_or_completed, restart_leaves_parked_job_alone)
+        for k, pj in prev_jobs.items():
+            if pj[1] >= threshold and k not in completed:
+                j = jobs.get(k)
+                if j is None or j[1] < threshold:
+                    report("C14:failed-event-vanished", f"job {subs[k[0]]['name'] if k[0] < len(subs) else k[0]}/{k[1]} was visible as failed (retries={pj[1]}, error class {pj[2]}) and is "
+                           f"{'gone from the shelf' if j is None else 'back under the threshold (retries=%d)' % j[1]} after line {h.start + i} ({kind}) although no completion was recorded "
+                           "(receiver never answered done, nobody called Finished)", i)
         # --- no loss
         for (r, ty), _ in admitted.items():
             for s in range(nsubs):
@@ -282,7 +294,7 @@ def run(ctx):
         t0 = time.time()
     facts = ctx.facts()
     lap("facts")
-    thms = ctx.build_and_audit(["NutsProofs.Props.C14", "NutsProofs.Props.C14Ops", "NutsProofs.Props.C14Api", "NutsProofs.Props.C14Recv"])
+    thms = ctx.build_and_audit(["NutsProofs.Props.C14", "NutsProofs.Props.C14Ops", "NutsProofs.Props.C14Api", "NutsProofs.Props.C14Recv", "NutsProofs.Props.C14Vis"])
     lap("lean-build+audit")
     for r in REQUIRED:
         if not any(t.endswith("Props." + r) for t in thms):
